@@ -27,7 +27,11 @@ theorem filter_refines_unfolded (c : F.Clause) (hs : c.sound) (hw : c.wellTyped 
 
 /-- T1: the functions this property's mirror model follows have today the source text the model was written against. -/
 -- (`filterBuiltIn`, the kernels and the bitset builders are regenerated as terms and proved: C02Kernels, C02Dispatch)
-theorem tie : Tie.sameAll ["qframe.filter", "qframe.orFrames", "qframe.OrClause.filter", "qframe.AndClause.filter", "qframe.NotClause.filter", "index.Filter"] = true := by decide
+-- Tie audit (bin/selftest-ties): the following functions are not compared as text any more; every behaviour-changing edit of
+-- them makes a `gen_*_canon` theorem of this property's modules fail, renaming their locals or reformatting them changes nothing:
+-- `QFrame.filter`, `orFrames`, `OrClause.filter`, `AndClause.filter`, `NotClause.filter`, `index.Int.Filter`: regenerated statement by statement as `Gen.clauseFns`
+-- (clast.go), `C02ClausesCanon.gen_clauses_canon` + `C02ClausesGen.gen_clause_filter_semantics`.
+theorem tie : Tie.sameAll [] = true := by decide
 
 /-! ### Facts about today's source (regenerated into `QF.Gen` on every run) -/
 
